@@ -108,3 +108,82 @@ Proof.
           (0%nat, TTick); (1%nat, TTick); (0%nat, TTick); (1%nat, TTick)].
   vm_compute. reflexivity.
 Qed.
+
+(** ** an initialisation call on an initialised library is ignored *)
+
+Lemma option_Z_eq_dec (x y : option Z) : {x = y} + {x <> y}.
+Proof. decide equality. apply Z.eq_dec. Qed.
+
+(** [myth_init()] / [myth_init_ex(&attr)] called while the state is "initialized": two steps of the
+    caller (the call, the state test); it returns 1 and nothing else changes - not the library's
+    attribute object, not the workers, not the counters, not the other callers *)
+Theorem reinit_ignored s i t a d :
+  st s = 2 -> nth_error (threads s) i = Some t -> t_pc t = Idle -> no_fini s = true ->
+  let s' := run step [(i, Call (OpInit a d)); (i, Tick)] s in
+  st s' = 2 /\ gnw s' = gnw s /\ nworkers s' = nworkers s /\ flags s' = flags s /\
+  n_cas s' = n_cas s /\ n_really s' = n_really s /\ n_fini s' = n_fini s /\
+  result s' i = Some 1 /\ rank_of s' i = rank_of s i /\
+  threads s' = set_nth (threads s) i {| t_pc := DoneI 1; t_rank := t_rank t |}.
+Proof.
+  intros Hst Hn Hpc Hnf. cbn zeta.
+  assert (Hne : nth_error (threads s) i <> None) by (rewrite Hn; discriminate).
+  set (t1 := at_pc t (IRead a d)).
+  set (s1 := with_thread s i t1).
+  assert (E1 : exec1 step s (i, Call (OpInit a d)) = s1).
+  { unfold exec1, step. rewrite Hn, Hpc, Hnf. reflexivity. }
+  assert (Hn1 : nth_error (threads s1) i = Some t1)
+    by (unfold s1; cbn [threads with_thread]; apply nth_error_set_same; exact Hne).
+  set (s2 := with_thread s1 i (at_pc t1 (DoneI 1))).
+  assert (E2 : exec1 step s1 (i, Tick) = s2).
+  { unfold exec1, step. rewrite Hn1. unfold t1 at 1. cbn [t_pc at_pc].
+    replace (st s1) with 2 by (unfold s1; cbn [st with_thread]; lia). reflexivity. }
+  unfold run. cbn [fold_left]. rewrite E1, E2.
+  unfold result, rank_of, s2, s1. cbn [st gnw nworkers flags n_cas n_really n_fini threads with_thread].
+  rewrite set_nth_set_nth. rewrite nth_error_set_same by exact Hne. rewrite Hn.
+  unfold t1. cbn [t_pc t_rank at_pc]. repeat split; assumption || reflexivity.
+Qed.
+
+(** in any interleaving, the library's attribute object and the worker set are written only by the
+    real initialisation (reached only through the CAS from "uninit"), by the tear-down, and by the
+    attribute setter (enabled only while uninitialised) *)
+Theorem attr_written_only_by_really s i e s' t :
+  step s (i, e) = Some s' -> nth_error (threads s) i = Some t ->
+  gnw s' <> gnw s \/ nworkers s' <> nworkers s ->
+  (exists a d, t_pc t = IReally a d) \/ t_pc t = FJoin \/ (exists n, e = Call (OpSetNW n) /\ st s = 0).
+Proof.
+  intros Hs Hn Hch. unfold step in Hs. rewrite Hn in Hs.
+  destruct e as [[a d| |n|r]| |r|]; destruct (t_pc t) eqn:Hpc; try discriminate;
+    repeat match type of Hs with
+           | (if ?b then _ else _) = _ => destruct b eqn:?; try discriminate
+           end;
+    injection Hs as Hs; subst s'; cbn [gnw nworkers with_thread] in Hch;
+    try (destruct Hch as [Hch|Hch]; contradiction Hch; reflexivity).
+  - right. right. exists n. split; [reflexivity|].
+    match goal with H : (_ && (st s =? 0)) = true |- _ => apply andb_prop in H; destruct H as [_ H]; apply Z.eqb_eq in H; exact H end.
+  - left. eauto.
+  - right. left. reflexivity.
+Qed.
+
+(** hence, in every reachable state in which the library is initialised, no step of any caller other than
+    the tear-down of myth_fini changes the attribute object or the worker set - whatever initialisation
+    calls are made, with whatever attributes, by whichever callers *)
+Theorem initialised_attr_stable n s i e s' t : reachable (initial n) step s ->
+  st s = 2 -> step s (i, e) = Some s' -> nth_error (threads s) i = Some t ->
+  t_pc t = FJoin \/ (gnw s' = gnw s /\ nworkers s' = nworkers s).
+Proof.
+  intros Hr Hst Hs Hn.
+  destruct (option_Z_eq_dec (gnw s') (gnw s)) as [Eg|Eg]; [destruct (Z.eq_dec (nworkers s') (nworkers s)) as [En|En]|].
+  - right. split; assumption.
+  - destruct (attr_written_only_by_really s i e s' t Hs Hn (or_intror En)) as [(a & d & Hpc)|[Hpc|(m & _ & H0)]].
+    + exfalso. pose proof (inv_reachable n s Hr) as HI. pose proof (cntl_total (threads s)) as Htot.
+      assert (H4 : (1 <= cntl 4 (threads s))%nat) by (apply (cntl_ge1 4 (threads s) i t Hn); unfold klass; rewrite Hpc; reflexivity).
+      by_phase HI; lia.
+    + left. exact Hpc.
+    + lia.
+  - destruct (attr_written_only_by_really s i e s' t Hs Hn (or_introl Eg)) as [(a & d & Hpc)|[Hpc|(m & _ & H0)]].
+    + exfalso. pose proof (inv_reachable n s Hr) as HI. pose proof (cntl_total (threads s)) as Htot.
+      assert (H4 : (1 <= cntl 4 (threads s))%nat) by (apply (cntl_ge1 4 (threads s) i t Hn); unfold klass; rewrite Hpc; reflexivity).
+      by_phase HI; lia.
+    + left. exact Hpc.
+    + lia.
+Qed.
